@@ -105,7 +105,21 @@ def main(argv):
                     missed += 1
                 print(f"{'KILLED ' if ok else 'MISSED '} {r['patch']:60s} {prop} exit={res['exit']} keys={res['keys']} {res['wall']}s" + (f" tests={r['tests']}" if r["tests"] else "") + (" " + str(res.get("inconclusive")) if res.get("inconclusive") else ""))
             sys.stdout.flush()
-    with open(os.path.join(env.VERIF, "mutants", "last_selftest.json"), "w") as f:
+    last = os.path.join(env.VERIF, "mutants", "last_selftest.json")
+    if (only or props_filter) and os.path.exists(last):
+        # a partial run refreshes its entries in the record of the last complete run
+        try:
+            old = {r["patch"]: r for r in json.load(open(last))}
+        except Exception:
+            old = {}
+        for r in results:
+            if props_filter and r["patch"] in old and "results" in old[r["patch"]]:
+                merged = dict(old[r["patch"]].get("results", {}))
+                merged.update(r.get("results", {}))
+                r = {**r, "results": merged}
+            old[r["patch"]] = r
+        results = [old[k] for k in sorted(old) if k in idx]
+    with open(last, "w") as f:
         json.dump(results, f, indent=1)
     print(f"selftest: {len(todo)} patches, {missed} not killed")
     return 1 if missed else 0
